@@ -184,6 +184,21 @@ struct PI<cntgs::VaryingSize<U>>
     static constexpr bool align_as = PI<U>::align_as;
 };
 
+// a contiguous source whose value type differs from the stored type (conversion, never a bit copy)
+template <class U>
+struct ConvOf
+{
+    using type = void;
+};
+template <> struct ConvOf<float> { using type = std::int32_t; };
+template <> struct ConvOf<double> { using type = std::int64_t; };
+template <> struct ConvOf<std::uint16_t> { using type = std::uint32_t; };
+template <> struct ConvOf<std::uint8_t> { using type = int; };
+template <> struct ConvOf<std::uint32_t> { using type = std::uint64_t; };
+template <> struct ConvOf<char> { using type = int; };
+template <> struct ConvOf<std::int32_t> { using type = std::int64_t; };
+
+
 // ---------------------------------------------------------------------------------------------
 // reference model: a sequence of tuples of value lists
 // ---------------------------------------------------------------------------------------------
